@@ -17,9 +17,13 @@ import (
 	"time"
 )
 
-const (
-	verifDir = "/verif"
-)
+// verifDir is /verif, or the snapshot verif.sh runs from (VERIF_DIR).
+var verifDir = func() string {
+	if d := os.Getenv("VERIF_DIR"); d != "" {
+		return d
+	}
+	return "/verif"
+}()
 
 // outDir is where evidence/ and replays/ are written: /verif, unless VERIF_OUT_DIR
 // redirects them (used by sensitivity runs against mutated trees so that they never
